@@ -43,11 +43,14 @@ impl Scenario {
         serde_json::to_vec(self).map(|v| v.len()).unwrap_or(usize::MAX)
     }
 
-    fn shrinks(&self) -> Vec<Scenario> {
+    /// Offer shrink candidates one at a time to `try_it`; stop at the first
+    /// one it accepts.  Candidates are built lazily: a scenario can be large
+    /// (thousands of types) and the list of its shrinks quadratic in that.
+    fn shrink_with(&self, try_it: &mut dyn FnMut(Scenario) -> bool) -> bool {
         match self {
-            Scenario::Reg(s) => shrink_reg(s).into_iter().map(Scenario::Reg).collect(),
-            Scenario::Tab(s) => shrink_tab(s).into_iter().map(Scenario::Tab).collect(),
-            Scenario::Wire(s) => shrink_wire(s).into_iter().map(Scenario::Wire).collect(),
+            Scenario::Reg(s) => shrink_reg(s, &mut |c| try_it(Scenario::Reg(c))),
+            Scenario::Tab(s) => shrink_tab(s, &mut |c| try_it(Scenario::Tab(c))),
+            Scenario::Wire(s) => shrink_wire(s, &mut |c| try_it(Scenario::Wire(c))),
         }
     }
 }
@@ -74,25 +77,82 @@ pub fn minimise(
     let mut cur_v = v.clone();
     let mut executions = 0u32;
     let mut accepted = 0u32;
-    'outer: loop {
-        for cand in cur.shrinks() {
-            if executions >= budget {
-                break 'outer;
+    let t0 = std::time::Instant::now();
+    let limit = std::time::Duration::from_secs(
+        std::env::var("VERIF_MIN_SECONDS").ok().and_then(|x| x.parse().ok()).unwrap_or(120),
+    );
+    loop {
+        let mut next: Option<(Scenario, Violation)> = None;
+        let mut out_of_budget = false;
+        cur.shrink_with(&mut |cand| {
+            if executions >= budget || t0.elapsed() > limit {
+                out_of_budget = true;
+                return true; // stop generating
             }
             executions += 1;
             tick(executions);
             if let Some(v2) = cand.exec(mask) {
                 if same(&v2, v) {
-                    cur = cand;
-                    cur_v = v2;
-                    accepted += 1;
-                    continue 'outer;
+                    next = Some((cand, v2));
+                    return true;
                 }
             }
+            false
+        });
+        match next {
+            Some((c, v2)) => {
+                cur = c;
+                cur_v = v2;
+                accepted += 1;
+            }
+            None => break,
         }
-        break;
+        if out_of_budget {
+            break;
+        }
     }
     Minimised { scenario: cur, violation: cur_v, executions, accepted }
+}
+
+/// Minimisation with an arbitrary acceptance test (used for crashes and
+/// hangs, where each attempt runs in a child process).
+pub fn minimise_by(
+    start: &Scenario,
+    budget: u32,
+    limit: std::time::Duration,
+    still_fails: &mut dyn FnMut(&Scenario) -> bool,
+) -> (Scenario, u32, u32) {
+    let mut cur = start.clone();
+    let mut executions = 0u32;
+    let mut accepted = 0u32;
+    let t0 = std::time::Instant::now();
+    loop {
+        let mut next: Option<Scenario> = None;
+        let mut out = false;
+        cur.shrink_with(&mut |cand| {
+            if executions >= budget || t0.elapsed() > limit {
+                out = true;
+                return true;
+            }
+            executions += 1;
+            if still_fails(&cand) {
+                next = Some(cand);
+                return true;
+            }
+            false
+        });
+        match next {
+            Some(c) => {
+                cur = c;
+                accepted += 1;
+            }
+            None => break,
+        }
+        if out {
+            break;
+        }
+    }
+    (cur, executions, accepted)
 }
 
 // ---------------------------------------------------------------------------
@@ -261,7 +321,11 @@ fn shrink_req(r: &Req) -> Vec<Req> {
     out
 }
 
-fn shrink_reg(s: &RegScenario) -> Vec<RegScenario> {
+fn shrink_reg(s: &RegScenario, try_it: &mut dyn FnMut(RegScenario) -> bool) -> bool {
+    shrink_reg_vec(s).into_iter().any(|c| try_it(c))
+}
+
+fn shrink_reg_vec(s: &RegScenario) -> Vec<RegScenario> {
     let mut out = Vec::new();
     // chain
     if !s.chain.is_empty() {
@@ -357,6 +421,11 @@ fn shrink_reg(s: &RegScenario) -> Vec<RegScenario> {
             out.push(t);
         }
     }
+    for i in 0..s.unwind_nodes.len() {
+        if s.unwind_nodes.len() > 1 {
+            out.push(RegScenario { unwind_nodes: without(&s.unwind_nodes, i), ..s.clone() });
+        }
+    }
     let id: Vec<u8> = (0..K as u8).collect();
     if s.perm != id {
         out.push(RegScenario { perm: id, ..s.clone() });
@@ -403,7 +472,11 @@ fn shrink_ptype(t: &PType) -> Vec<PType> {
     out
 }
 
-fn shrink_tab(s: &TabScenario) -> Vec<TabScenario> {
+fn shrink_tab(s: &TabScenario, try_it: &mut dyn FnMut(TabScenario) -> bool) -> bool {
+    shrink_tab_vec(s).into_iter().any(|c| try_it(c))
+}
+
+fn shrink_tab_vec(s: &TabScenario) -> Vec<TabScenario> {
     let mut out = Vec::new();
     if !s.interner_ops.is_empty() {
         out.push(TabScenario { interner_ops: vec![], ..s.clone() });
@@ -444,105 +517,145 @@ fn shrink_tab(s: &TabScenario) -> Vec<TabScenario> {
     out
 }
 
-fn shrink_preg(p: &PReg) -> Vec<PReg> {
-    let mut out = Vec::new();
-    if p.types.len() > 1 {
-        let h = p.types.len() / 2;
-        out.push(PReg { types: p.types[..h].to_vec() });
-        out.push(PReg { types: p.types[h..].to_vec() });
-    }
-    for i in 0..p.types.len() {
-        out.push(PReg { types: without(&p.types, i) });
-    }
-    for i in 0..p.types.len() {
-        for t in shrink_ptype(&p.types[i].1) {
-            let mut n = p.clone();
-            n.types[i].1 = t;
-            out.push(n);
+/// Lazily offer smaller registries: chunks of entries removed (halves, then
+/// quarters, ... then single entries), then simpler entries.
+fn shrink_preg(p: &PReg, try_it: &mut dyn FnMut(PReg) -> bool) -> bool {
+    let n = p.types.len();
+    let mut chunk = n / 2;
+    while chunk >= 1 {
+        let mut start = 0;
+        while start < n {
+            let end = (start + chunk).min(n);
+            let mut t = Vec::with_capacity(n - (end - start));
+            t.extend_from_slice(&p.types[..start]);
+            t.extend_from_slice(&p.types[end..]);
+            if try_it(PReg { types: t }) {
+                return true;
+            }
+            start = end;
         }
-        if p.types[i].0 != i as u32 {
-            let mut n = p.clone();
-            n.types[i].0 = i as u32;
-            out.push(n);
+        if chunk == 1 {
+            break;
+        }
+        chunk /= 2;
+    }
+    // simplifying single entries only pays for small registries
+    if n <= 64 {
+        for i in 0..n {
+            for t in shrink_ptype(&p.types[i].1) {
+                let mut c = p.clone();
+                c.types[i].1 = t;
+                if try_it(c) {
+                    return true;
+                }
+            }
+            if p.types[i].0 != i as u32 {
+                let mut c = p.clone();
+                c.types[i].0 = i as u32;
+                if try_it(c) {
+                    return true;
+                }
+            }
         }
     }
-    out
+    false
 }
 
-fn shrink_wire(s: &WireScenario) -> Vec<WireScenario> {
-    let mut out = Vec::new();
+fn shrink_wire(s: &WireScenario, try_it: &mut dyn FnMut(WireScenario) -> bool) -> bool {
+    macro_rules! offer {
+        ($c:expr) => {
+            if try_it($c) {
+                return true;
+            }
+        };
+    }
     // one case at a time is what a violation needs
+    if !s.cases.is_empty() {
+        offer!(WireScenario { cases: vec![], ..s.clone() });
+    }
     if s.cases.len() > 1 {
-        out.push(WireScenario { cases: vec![], ..s.clone() });
         for i in 0..s.cases.len() {
-            out.push(WireScenario { cases: vec![s.cases[i].clone()], ..s.clone() });
+            offer!(WireScenario { cases: vec![s.cases[i].clone()], ..s.clone() });
         }
-    } else if s.cases.len() == 1 {
-        out.push(WireScenario { cases: vec![], ..s.clone() });
     }
     if s.frames.len() > 1 {
         for i in 0..s.frames.len() {
-            out.push(WireScenario { frames: vec![s.frames[i].clone()], ..s.clone() });
+            offer!(WireScenario { frames: vec![s.frames[i].clone()], ..s.clone() });
         }
     }
     if !s.sentinel.is_empty() {
-        out.push(WireScenario { sentinel: vec![], ..s.clone() });
+        offer!(WireScenario { sentinel: vec![], ..s.clone() });
     }
     if s.readers.len() > 1 {
         for i in 0..s.readers.len() {
-            out.push(WireScenario { readers: vec![s.readers[i].clone()], ..s.clone() });
+            offer!(WireScenario { readers: vec![s.readers[i].clone()], ..s.clone() });
         }
     }
+    let plain = crate::io::IoScript::plain();
+    if s.writer != plain {
+        offer!(WireScenario { writer: plain.clone(), ..s.clone() });
+    }
     for (ci, c) in s.cases.iter().enumerate() {
-        let mut push = |c2: Case| {
-            let mut n = s.clone();
-            n.cases[ci] = c2;
-            out.push(n);
-        };
+        let mut cands: Vec<Case> = Vec::new();
         match c {
             Case::Scale { faults, reader } => {
                 if faults.len() > 1 {
                     for i in 0..faults.len() {
-                        push(Case::Scale { faults: without(faults, i), reader: reader.clone() });
+                        cands.push(Case::Scale { faults: without(faults, i), reader: reader.clone() });
                     }
                 }
                 if *reader != ReaderSpec::Slice && !matches!(reader, ReaderSpec::IoErr(..)) {
-                    push(Case::Scale { faults: faults.clone(), reader: ReaderSpec::Slice });
+                    cands.push(Case::Scale { faults: faults.clone(), reader: ReaderSpec::Slice });
                 }
                 if let ReaderSpec::IoErr(sc, at, k) = reader {
-                    let plain = crate::io::IoScript::plain();
                     if *sc != plain {
-                        push(Case::Scale { faults: faults.clone(), reader: ReaderSpec::IoErr(plain, *at, *k) });
+                        cands.push(Case::Scale {
+                            faults: faults.clone(),
+                            reader: ReaderSpec::IoErr(plain.clone(), *at, *k),
+                        });
                     }
                 }
             }
             Case::JsonText { frame, faults, reader, err } => {
                 if faults.len() > 1 {
                     for i in 0..faults.len() {
-                        push(Case::JsonText { frame: *frame, faults: without(faults, i), reader: reader.clone(), err: *err });
+                        cands.push(Case::JsonText {
+                            frame: *frame,
+                            faults: without(faults, i),
+                            reader: reader.clone(),
+                            err: *err,
+                        });
                     }
                 }
                 if reader.is_some() {
-                    push(Case::JsonText { frame: *frame, faults: faults.clone(), reader: None, err: None });
+                    cands.push(Case::JsonText { frame: *frame, faults: faults.clone(), reader: None, err: None });
                 }
             }
             Case::JsonValue { frame, faults } => {
                 if faults.len() > 1 {
                     for i in 0..faults.len() {
-                        push(Case::JsonValue { frame: *frame, faults: without(faults, i) });
+                        cands.push(Case::JsonValue { frame: *frame, faults: without(faults, i) });
                     }
                 }
             }
+        }
+        for c2 in cands {
+            let mut n = s.clone();
+            n.cases[ci] = c2;
+            offer!(n);
         }
     }
     // shrinking a frame moves offsets, so it is tried last and only helps
     // when the faults still hit; offsets are clamped, never out of range
     for i in 0..s.frames.len() {
-        for p in shrink_preg(&s.frames[i]) {
+        let hit = shrink_preg(&s.frames[i], &mut |p| {
             let mut n = s.clone();
             n.frames[i] = p;
-            out.push(n);
+            try_it(n)
+        });
+        if hit {
+            return true;
         }
     }
-    out
+    false
 }
